@@ -662,6 +662,8 @@ func rawSignatureData(rrset []RR, s *RRSIG) (buf []byte, err error) {
 		case *PX:
 			x.Map822 = CanonicalName(x.Map822)
 			x.Mapx400 = CanonicalName(x.Mapx400)
+		case *NXT:
+			x.NextDomain = CanonicalName(x.NextDomain)
 		case *NAPTR:
 			x.Replacement = CanonicalName(x.Replacement)
 		case *KX:
